@@ -94,6 +94,11 @@ func (p Precompile) Run(evm *vm.EVM, contract *vm.Contract, readOnly bool) (bz [
 		return nil, err
 	}
 
+	// The EVM can only revert its own journal: when this call fails (error or out of gas) the writes the
+	// method made to the SDK context would stay. Run the method on a cached context and write it back
+	// only when the call succeeds.
+	ctx, writeCache := ctx.CacheContext()
+
 	switch method.Name {
 	// Custom transactions
 	case ClaimRewardsMethod:
@@ -133,6 +138,8 @@ func (p Precompile) Run(evm *vm.EVM, contract *vm.Contract, readOnly bool) (bz [
 	if !contract.UseGas(cost) {
 		return nil, vm.ErrOutOfGas
 	}
+
+	writeCache()
 
 	return bz, nil
 }
